@@ -3,6 +3,7 @@ package main
 // SSA instruction semantics.
 
 import (
+	"go/constant"
 	"fmt"
 	"go/token"
 	"strings"
@@ -463,9 +464,18 @@ func (x *Exec) execBinOp(p *Path, v *ssa.BinOp) SV {
 			x.guard(p, fmt.Sprintf("(not (= %s 0))", b.T), "div-zero", v)
 			return x.define(p, "n", term(fmt.Sprintf("(gomod %s %s)", a.T, b.T), SInt))
 		case token.AND:
-			// only the parity test length&1 occurs
-			if b.T == "1" {
-				return term(fmt.Sprintf("(mod %s 2)", a.T), SInt)
+			// x & (2^k - 1) with a constant mask is x mod 2^k (two's complement, also for negative x)
+			if c, ok := v.Y.(*ssa.Const); ok && c.Value != nil {
+				if m, ok := constant.Int64Val(constant.ToInt(c.Value)); ok && m > 0 && (m&(m+1)) == 0 {
+					return term(fmt.Sprintf("(mod %s %d)", a.T, m+1), SInt)
+				}
+			}
+		case token.SHR:
+			// x >> k with a constant k is floor(x / 2^k) (arithmetic shift for signed, logical for unsigned non-negative values)
+			if c, ok := v.Y.(*ssa.Const); ok && c.Value != nil {
+				if k, ok := constant.Int64Val(constant.ToInt(c.Value)); ok && k >= 0 && k < 62 {
+					return x.define(p, "n", term(fmt.Sprintf("(div %s %d)", a.T, int64(1)<<uint(k)), SInt))
+				}
 			}
 		case token.EQL:
 			return boolT("(= %s %s)", a.T, b.T)
@@ -776,6 +786,14 @@ func (x *Exec) mapDelete(p *Path, m SV, key string) {
 // "for every iteration order" is built in.
 func (x *Exec) execRange(p *Path, v *ssa.Range) bool {
 	m := x.val(p, v.X)
+	if m.K == KTerm && m.S == SStr {
+		// `range s` over a string: the iterator cell holds the byte position; each step decodes one rune
+		// (runeAt / runeLen are the specification of utf8.DecodeRuneInString at that position)
+		c := x.alloc(p, "KCELL", 1)
+		x.store1(p, "CInt", c, "0")
+		x.bind(p, v, SV{K: KIter, T: m.T, Loc: &Loc{Kind: "cell", Cell: c}, Len: "(slen " + m.T + ")"})
+		return true
+	}
 	if m.K != KMap {
 		x.errorf("%s: range over %s not supported at %s", x.cur.ct.Func, v.X.Type(), x.pos(v))
 		return false
@@ -809,6 +827,17 @@ func (x *Exec) execNext(p *Path, v *ssa.Next) bool {
 	ok := x.fresh("more")
 	p.declare(ok, "Bool")
 	p.assume(fmt.Sprintf("(= %s (< %s %s))", ok, pos.T, it.Len))
+	if it.MapT == nil {
+		// string iterator
+		r := x.define(p, "rune", term(fmt.Sprintf("(runeAt %s %s)", it.T, pos.T), SInt))
+		x.store1(p, "CInt", it.Loc.Cell, fmt.Sprintf("(ite %s (+ %s (runeLen %s %s)) %s)", ok, pos.T, it.T, pos.T, pos.T))
+		if p.wfKnown != "" {
+			p.assume(fmt.Sprintf("(wf %s)", p.H))
+			p.wfKnown = p.H
+		}
+		x.bind(p, v, SV{K: KTuple, Tup: []SV{term(ok, SBool), pos, r}})
+		return true
+	}
 	key := x.define(p, "key", term(fmt.Sprintf("(select %s %s)", it.Arr, pos.T), SStr))
 	raw := fmt.Sprintf("(select (select (MVal %s) %s) %s)", p.H, it.T, key.T)
 	val := unwrapElem(it.MapT.Elem(), raw)
